@@ -271,7 +271,7 @@ def run_one(ex, fname, args, what):
     return ps[0], None
 
 
-@obligation('C08', 'C08-S roots equal RFC 6962 MTH; every constructed proof verifies; a changed leaf / path element / root does not')
+@obligation('C08', 'C08-S roots equal RFC 6962 MTH; every constructed proof verifies; a changed leaf / path element / root, a surplus or a missing segment does not')
 def c08_structure(run):
     N = 16 if run.tier == 'quick' else 48
     run.bound(leaves=f'every tree size 1..{N} (concrete shapes), symbolic leaf contents; sizes beyond are covered only through the size-independent index lemmas (C08-K)',
@@ -318,6 +318,20 @@ def c08_structure(run):
                 pw2, _ = run_one(ex, walk, [B.cell(ex.copy_val(proof)), x], 'walk-tampered-leaf')
                 run.prove(f'proof {i}/{n}: a different leaf hash does not verify', [x != lh], pw2.result != root)
                 path = B.fld(ex, p, proof, 'audit_path', 'Vec<u8>')
+                # a surplus segment appended to a valid proof: the walk must not stop at the root and ignore it
+                pr4 = ex.copy_val(proof); path4 = B.fld(ex, p, pr4, 'audit_path', 'Vec<u8>')
+                path4.attrs['items'] = list(path4.attrs['items']) + [x]
+                pw4, bad4 = run_one(ex, walk, [B.cell(pr4), lh], 'walk-surplus-segment')
+                if pw4 is None:
+                    run.prove(f'proof {i}/{n} with a surplus segment is verified without panic', [], z3.BoolVal(False), detail=str(bad4))
+                else:
+                    run.prove(f'proof {i}/{n}: a valid audit path with one surplus segment does not verify', [], pw4.result != root)
+                if len(path.attrs['items']) >= 1:
+                    pr5 = ex.copy_val(proof); path5 = B.fld(ex, p, pr5, 'audit_path', 'Vec<u8>')
+                    path5.attrs['items'] = list(path5.attrs['items'])[:-1]
+                    pw5, bad5 = run_one(ex, walk, [B.cell(pr5), lh], 'walk-missing-segment')
+                    if pw5 is not None:
+                        run.prove(f'proof {i}/{n}: an audit path with its last segment removed does not verify', [], pw5.result != root)
                 for j in range(len(path.attrs['items'])):
                     pr2 = ex.copy_val(proof); path2 = B.fld(ex, p, pr2, 'audit_path', 'Vec<u8>')
                     orig = path2.attrs['items'][j]; path2.attrs['items'][j] = x
